@@ -192,10 +192,27 @@ class Env:
         return False
 
 
+import copy as _copy
+
+# module-level mutable state of bisturi.codegen as it is right after import: a new process starts from it
+_INITIAL_STATE = dict((k, _copy.deepcopy(v)) for k, v in vars(_cg).items()
+                      if isinstance(v, (dict, list, set)) and not k.startswith("__"))
+
+
 def fresh_process(module_names):
-    """forget what earlier 'processes' imported"""
+    """forget what earlier 'processes' imported or remembered (sys.modules entries, module-level caches of bisturi.codegen)"""
     for n in list(module_names):
         sys.modules.pop(n, None)
+    for k, v in _INITIAL_STATE.items():
+        cur = getattr(_cg, k, None)
+        if isinstance(cur, dict):
+            cur.clear()
+            cur.update(_copy.deepcopy(v))
+        elif isinstance(cur, list):
+            cur[:] = _copy.deepcopy(v)
+        elif isinstance(cur, set):
+            cur.clear()
+            cur.update(v)
     importlib.invalidate_caches()
 
 
